@@ -28,11 +28,18 @@ def dispatchSync (fn : String) (args : List String) (impl : String) : Option Ver
           s!"{c1} | {hxl ser} | {p2}"
       -- spec: a generated well-formed request must parse to what its AST denotes, and survive the round trip
       let spec :=
-        if expect == "-" then none
+        if expect == "-" then
+          -- no generator oracle for this input; the round-trip clause still applies to whatever was parsed: where the
+          -- model (proved to round-trip, Props/C02Faithful) parses the same request and reads it back unchanged, an
+          -- implementation whose second parse differs from its first has relayed a different request
+          match impl.splitOn " | ", model.splitOn " | " with
+          | [p1, _, p2], [m1, _, m2] =>
+            if p1.startsWith "OK" && p1 == m1 && m2 == m1 && p2 != p1 then some false else none
+          | _, _ => none
         else match impl.splitOn " | " with
           | [p1, _, p2] => some (p1 == expect && p2 == p1)
           | _ => some false
-      some { model := model, spec := spec }
+      some { model := model, spec := spec, reason := if expect == "-" then "relayed-request-differs" else "" }
     | _, _ => some { model := "BADARGS" }
   | _, _ => none
 
